@@ -54,6 +54,9 @@ def operator_consumers(tc):
             continue
         info = {"fn": f, "token": None, "excepts": None, "kind": "custom", "extra": []}
         calls = [n for n in sir.walk(f.body) if n.get("k") == "mcall" and n["m"] in ("consume_str_except_followed", "consume_str_except_followed_char", "consume_str")]
+        if not calls and any(x.get("k") == "path" and len(x["segs"]) >= 2 and x["segs"][-2] in ("ParseOperator", "Self") and x["segs"][-1].replace("r#", "") != f.name
+                             and any(g.base == "ParseOperator" and g.name == x["segs"][-1].replace("r#", "") for g in tc.fns) for x in sir.walk(f.node, into_items=True)):
+            continue   # a dispatcher over other consumers (a table of probes): it reads no token itself
         if calls:
             c = calls[0]
             if c["args"] and c["args"][0].get("k") == "lit":
